@@ -1060,7 +1060,7 @@ pub fn gen_control_flow(rng: &mut Rng, avoid: &Avoid) -> Scenario {
         list.insert(at, s);
     }
     // RESUME label target
-    let use_resume_label = g.f.handler && g.f.resume_label && !g.has_fail_in_proc;
+    let use_resume_label = g.f.handler && g.f.resume_label;
     if use_resume_label {
         let at = 1 + g.rng.below(list.len());
         let s = g.st(StmtKind::Label("RL1".into()));
